@@ -374,6 +374,14 @@ class ExactCollections:
                 return [("ok",) + self.alloc(state, node, "ddict:%s" % fac if fac else "dict", DictV(()))]
             return ok(TOP)
         if isinstance(f, ast.Name) and not kwargs:
+            if f.id == "next" and 1 <= len(args) <= 2 and isinstance(args[0], GenV):
+                g = args[0]
+                pos = state.get(("gen", g.site), 0)
+                if pos < len(g.items):
+                    return ok(g.items[pos], state.set(("gen", g.site), pos + 1))
+                if len(args) == 2:
+                    return ok(args[1])
+                return [("exc", Exc(ORD, "StopIteration", node.lineno), state)]
             if f.id == "iter" and len(args) == 1:
                 seq = self._seq(args[0], state)
                 if seq is not None:
@@ -547,22 +555,28 @@ class ExactCollections:
         if isinstance(itval, Const) and isinstance(itval.v, (tuple, list)):
             return tuple(Const(x) for x in itval.v)
         if isinstance(itval, GenV):
-            if state is not None and state.get(("gen", itval.site), 0):
-                return ()
-            return itval.items
+            # ("gen", site) = how many elements have been taken from this one-shot iterator so far
+            pos = state.get(("gen", itval.site), 0) if state is not None else 0
+            return itval.items[pos:]
         return None
 
     def consume(self, v, state):
         """The elements a consumer of `v` sees, and the state afterwards (a one-shot iterator is used up)."""
         seq = self._seq(v, state)
         if isinstance(v, GenV):
-            state = state.set(("gen", v.site), 1)
+            state = state.set(("gen", v.site), len(v.items))
         return seq, state
 
     def for_next(self, node, itval, state):
         key = ("iter", node.lineno, getattr(node, "col_offset", 0))
-        midway = isinstance(state.get(key, None), int) and not isinstance(node, ast.comprehension)
-        seq = self._seq(itval, state) if not (midway and isinstance(itval, GenV)) else itval.items
+        if isinstance(itval, GenV) and not isinstance(node, ast.comprehension):
+            # a `for` over a one-shot iterator takes its elements one by one from where it stands
+            pos = state.get(("gen", itval.site), 0)
+            if pos >= len(itval.items):
+                return []
+            return [(itval.items[pos], state.set(("gen", itval.site), pos + 1))]
+        midway = False
+        seq = self._seq(itval, state)
         if seq is None:
             # an iterable whose elements are not known: whatever is counted or collected in this loop is a guess.  The
             # state is marked imprecise (verdicts on such paths are 'undecided'), so two iterations are explored and
@@ -574,20 +588,18 @@ class ExactCollections:
             res = super().for_next(node, itval, state)
             return [(v, self.mark_imprecise(s.set(ukey, n + 1) if not isinstance(node, ast.comprehension) else s, node)) for v, s in res]
         if isinstance(node, ast.comprehension):
-            st = state.set(("gen", itval.site), 1) if isinstance(itval, GenV) else state
+            st = state.set(("gen", itval.site), len(itval.items)) if isinstance(itval, GenV) else state
             return [(v, st) for v in seq]
         i = state.get(key, 0)
         if i >= len(seq):
             return []
-        st = state.set(key, i + 1)
-        if isinstance(itval, GenV):
-            st = st.set(("gen", itval.site), 1)
-        return [(seq[i], st)]
+        return [(seq[i], state.set(key, i + 1))]
 
     def for_exhausted(self, node, itval, state):
         key = ("iter", node.lineno, getattr(node, "col_offset", 0))
-        midway = isinstance(state.get(key, None), int)
-        seq = self._seq(itval, state) if not (midway and isinstance(itval, GenV)) else itval.items
+        if isinstance(itval, GenV):
+            return state if state.get(("gen", itval.site), 0) >= len(itval.items) else None
+        seq = self._seq(itval, state)
         if seq is None:
             res = super().for_exhausted(node, itval, state)
             return self.mark_imprecise(res, node) if res is not None else None
